@@ -415,4 +415,223 @@ Section Remove.
           [|apply firstn_aset; lia|apply (B7 firstn_aset_lt); lia].
         rewrite !app_length. lia.
   Qed.
+
+  (* ---------------------------------------------------------------- remove_down *)
+  Lemma strong_of_min : forall h (n : node), wfn L I h n -> min_vals L I n < n_vals n -> strong n.
+  Proof.
+    intros h [vs|vs cs] W H; cbn [strong]; auto. left. unf. lia.
+  Qed.
+
+  Definition rd_post (h : nat) (n : node) (e : elt) (r : rm_res elt) : Prop :=
+    kids_ok L I h (rr_node r) /\
+    n_vals n - 1 <= n_vals (rr_node r) <= n_vals n /\
+    (is_leaf (rr_node r) = false -> 1 <= n_vals (rr_node r)) /\
+    (forall y, In y (rr_log r) -> In y (elements n)) /\
+    ((rr_st r = SUCCESS /\ exists x l1 l2, rr_out r = Some x /\ rank x = rank e /\
+        elements n = l1 ++ x :: l2 /\ elements (rr_node r) = l1 ++ l2 /\
+        match rr_act r with
+        | AReset => elements (rr_node r) = []
+        | AKeep => valid (rr_node r) (rr_frames r) /\ pos (rr_node r) (rr_frames r) = length l1
+        | AIncr => valid (rr_node r) (rr_frames r) /\ S (pos (rr_node r) (rr_frames r)) = length l1
+        end) \/
+     (rr_st r = NOT_FOUND /\ rr_out r = None /\ elements (rr_node r) = elements n /\
+      forall y, In y (elements n) -> rank y <> rank e)).
+
+  Lemma valid_pos_lift : forall (vs : list elt) cs i (c' : node) fr, i <= length vs -> i < length cs ->
+    valid c' fr ->
+    valid (Inode vs (aset cs i c')) (i :: fr) /\
+    pos (Inode vs (aset cs i c')) (i :: fr) = length (pre vs cs i) + pos c' fr.
+  Proof.
+    intros vs cs i c' fr Hi Hc Hv. destruct fr as [|j q]; [exact (False_ind _ Hv)|]. split.
+    - apply (B7 valid_cons). unfold child. cbn [is_leaf children]. rewrite nth_aset_eq by lia.
+      unfold n_vals. cbn [vals]. auto.
+    - rewrite (B7 pos_cons_inode). rewrite nth_aset_eq by lia. rewrite (B3 pre_aset) by lia. reflexivity.
+  Qed.
+
+  Lemma child_pre : forall h (vs1 : list elt) cs1 i', PK h vs1 cs1 -> i' <= length vs1 ->
+    asc (elements (Inode vs1 cs1)) -> min_vals L I (nth i' cs1 dnode) < n_vals (nth i' cs1 dnode) ->
+    kids_ok L I h (nth i' cs1 dnode) /\ asc (elements (nth i' cs1 dnode)) /\ strong (nth i' cs1 dnode).
+  Proof.
+    intros h vs1 cs1 i' HP Hi Ha Hm. pose proof (B7 PK_child h vs1 cs1 i' HP Hi) as W.
+    split; [apply (B7 wfn_kids_ok); assumption|].
+    split; [apply (B3 asc_child vs1 cs1 i'); auto; destruct HP; assumption|].
+    eapply strong_of_min; eauto.
+  Qed.
+
+  Lemma rd_post_lift : forall h (vs : list elt) cs vs1 cs1 i' e r lg,
+    h <> 0 -> PK h vs1 cs1 -> i' <= length vs1 -> 1 <= length vs1 -> length vs - 1 <= length vs1 <= length vs ->
+    elements (Inode vs1 cs1) = elements (Inode vs cs) ->
+    (forall y, In y (elements (Inode vs cs)) -> rank y = rank e -> In y (elements (nth i' cs1 dnode))) ->
+    (forall y, In y lg -> In y (elements (Inode vs cs))) ->
+    min_vals L I (nth i' cs1 dnode) < n_vals (nth i' cs1 dnode) ->
+    rd_post h (nth i' cs1 dnode) e r ->
+    rd_post (S h) (Inode vs cs) e
+      (mkRm (rr_st r) (rr_out r) (Inode vs1 (aset cs1 i' (rr_node r))) (i' :: rr_frames r) (rr_act r)
+            (lg ++ rr_log r)).
+  Proof.
+    intros h vs cs vs1 cs1 i' e r lg Hh HP Hi H1 Hlen Eel Hloc Hlg Hmin (Hk & Hnv & Hleaf & Hlog & Hcase).
+    pose proof (B7 PK_child h vs1 cs1 i' HP Hi) as W.
+    assert (Hl1 : length cs1 = S (length vs1)) by (destruct HP; assumption).
+    assert (Wc' : wfn L I h (rr_node r)).
+    { apply (B7 wfn_iff). split; [assumption|].
+      destruct (same_kind h _ _ Hk (B7 wfn_kids_ok _ _ W)) as (E1 & E2 & _).
+      pose proof (wfn_bounds h _ W). lia. }
+    pose proof (B7 PK_aset h vs1 cs1 i' (rr_node r) HP Hi Wc') as [Hl' Hf'].
+    unfold rd_post. cbn [rr_node rr_st rr_out rr_frames rr_act rr_log].
+    split; [cbn [kids_ok]; auto|].
+    split; [unfold n_vals; cbn [vals]; lia|].
+    split; [intros _; unfold n_vals; cbn [vals]; lia|].
+    split.
+    { intros y Hy. apply in_app_or in Hy as [Hy|Hy]; [auto|]. apply Hlog in Hy. rewrite <- Eel.
+      apply (B3 in_child_elements vs1 cs1 i' y); auto. }
+    destruct Hcase as [(Est & x & l1 & l2 & Eout & Erk & Ec & Ec' & Hact)|(Est & Eout & Ec' & Hno)].
+    - left. split; [assumption|].
+      exists x, (pre vs1 cs1 i' ++ l1), (l2 ++ post vs1 cs1 i').
+      split; [assumption|]. split; [assumption|].
+      split; [rewrite <- Eel, (B3 elements_split vs1 cs1 i') by lia; rewrite Ec, <- !app_assoc; reflexivity|].
+      split; [rewrite (B3 elements_aset vs1 cs1 i') by lia; rewrite Ec', <- !app_assoc; reflexivity|].
+      rewrite app_length.
+      destruct (rr_act r).
+      + exfalso. exact (wfn_elements_nonnil h _ Wc' Hact).
+      + destruct Hact as [Hv Hp].
+        destruct (valid_pos_lift vs1 cs1 i' (rr_node r) (rr_frames r) Hi ltac:(lia) Hv) as [Hv' Hp'].
+        split; [assumption|lia].
+      + destruct Hact as [Hv Hp].
+        destruct (valid_pos_lift vs1 cs1 i' (rr_node r) (rr_frames r) Hi ltac:(lia) Hv) as [Hv' Hp'].
+        split; [assumption|lia].
+    - right. split; [assumption|]. split; [assumption|].
+      split.
+      + rewrite <- Eel, (B3 elements_aset vs1 cs1 i') by lia. rewrite (B3 elements_split vs1 cs1 i') by lia.
+        rewrite Ec'. reflexivity.
+      + intros y Hy Hr. apply (Hno y); auto.
+  Qed.
+
+  Lemma rd_post_leaf : forall (vs : list elt) e i fr act lg, i < length vs -> rank (nth i vs dflt) = rank e ->
+    (forall y, In y lg -> In y vs) ->
+    match act with
+    | AReset => aerase vs i = []
+    | AKeep => valid (Leaf (aerase vs i)) fr /\ pos (Leaf (aerase vs i)) fr = i
+    | AIncr => valid (Leaf (aerase vs i)) fr /\ S (pos (Leaf (aerase vs i)) fr) = i
+    end ->
+    rd_post 1 (Leaf vs) e (mkRm SUCCESS (Some (nth i vs dflt)) (Leaf (aerase vs i)) fr act lg).
+  Proof.
+    intros vs e i fr act lg Hi Hr Hlg Hact.
+    unfold rd_post. cbn [rr_node rr_st rr_out rr_frames rr_act rr_log].
+    split; [reflexivity|].
+    split; [unfold n_vals; cbn [vals]; rewrite length_aerase by lia; lia|].
+    split; [discriminate|].
+    split; [exact Hlg|].
+    left. split; [reflexivity|]. exists (nth i vs dflt), (firstn i vs), (skipn (S i) vs).
+    split; [reflexivity|]. split; [assumption|].
+    split; [cbn [elements]; apply firstn_skipn_nth; assumption|].
+    split; [reflexivity|].
+    rewrite firstn_length. replace (Nat.min i (length vs)) with i by lia.
+    destruct act; auto.
+  Qed.
+
+  Lemma remove_down_spec : forall h (n : node) e, kids_ok L I h n -> asc (elements n) -> strong n ->
+    rd_post h n e (remove_down rank dflt L I h n e).
+  Proof.
+    induction h as [|h IH]; intros n e Hk Hasc Hs; [exact (False_ind _ Hk)|].
+    destruct n as [vs|vs cs].
+    - cbn [kids_ok] in Hk. subst h. cbn [remove_down]. cbn [elements] in Hasc.
+      pose proof (B3 find_value_spec (cmpk rank e) vs (B3 cmpk_mono e vs Hasc)) as Hfv.
+      destruct (find_value dflt (cmpk rank e) vs) as [[i eq] lg].
+      destruct Hfv as (Hi & Ht & Hf & Hlg & _).
+      destruct eq; cbn [negb].
+      + destruct (Ht eq_refl) as [Hi' Heq]. apply (proj1 (B3 cmpk_Eq _ _)) in Heq.
+        pose proof (length_aerase vs i Hi') as Hlen.
+        destruct (length (aerase vs i) =? 0) eqn:E0; [|destruct (i =? length (aerase vs i)) eqn:E1].
+        * apply Nat.eqb_eq in E0. apply rd_post_leaf; auto. apply length_zero_iff_nil. assumption.
+        * apply Nat.eqb_neq in E0. apply Nat.eqb_eq in E1. apply rd_post_leaf; auto.
+          rewrite (B7 valid_single), (B7 pos_leaf). unfold n_vals. cbn [vals]. lia.
+        * apply Nat.eqb_neq in E0. apply Nat.eqb_neq in E1. apply rd_post_leaf; auto.
+          rewrite (B7 valid_single), (B7 pos_leaf). unfold n_vals. cbn [vals]. lia.
+      + destruct (Hf eq_refl) as [Hlt Hgt].
+        unfold rd_post. cbn [rr_node rr_st rr_out rr_frames rr_act rr_log].
+        split; [reflexivity|]. split; [lia|]. split; [discriminate|]. split; [exact Hlg|].
+        right. split; [reflexivity|]. split; [reflexivity|]. split; [reflexivity|].
+        intros y Hy. cbn [elements] in Hy. apply (In_nth _ _ dflt) in Hy as (j & Hj & <-).
+        destruct (Nat.lt_ge_cases j i) as [Hji|Hji].
+        * specialize (Hlt j Hji). apply (proj1 (B3 cmpk_Lt _ _)) in Hlt. lia.
+        * specialize (Hgt j ltac:(lia)). apply (proj1 (B3 cmpk_Gt _ _)) in Hgt. lia.
+    - cbn [kids_ok] in Hk. destruct Hk as (Hh & Hl & Hf).
+      assert (HP : PK h vs cs) by (split; assumption).
+      assert (Hvs : 1 <= length vs) by (cbn [strong] in Hs; lia).
+      pose proof (B3 cmpk_mono e _ Hasc) as Hmono.
+      cbn [remove_down].
+      pose proof (B3 find_value_spec (cmpk rank e) vs (B3 mono_vals _ vs cs Hl Hmono)) as Hfv.
+      destruct (find_value dflt (cmpk rank e) vs) as [[i eq] lg].
+      destruct Hfv as (Hi & Ht & Hff & Hlg0 & _).
+      assert (Hlg : forall y, In y lg -> In y (elements (Inode vs cs))).
+      { intros y Hy. apply (B3 in_vals_elements); auto. }
+      destruct eq.
+      + destruct (Ht eq_refl) as [Hi' Heq]. apply (proj1 (B3 cmpk_Eq _ _)) in Heq.
+        pose proof (replace_value_spec h vs cs i HP Hi' Hasc) as Hrv.
+        destruct (replace_value dflt L I h (Inode vs cs) i) as [[out n']|].
+        * destruct Hrv as (Eout & vs' & cs' & l1 & l2 & En' & HP' & Hlen & Eel & Eel' & Hpos). subst n' out.
+          assert (Hl' : length cs' = S (length vs')) by (destruct HP'; assumption).
+          cbn [vals].
+          unfold rd_post. cbn [rr_node rr_st rr_out rr_frames rr_act rr_log].
+          split; [cbn [kids_ok]; destruct HP'; auto|].
+          split; [unfold n_vals; cbn [vals]; lia|].
+          split; [intros _; unfold n_vals; cbn [vals]; lia|].
+          split.
+          { intros y Hy. apply in_app_or in Hy as [Hy|[<-|[]]]; [auto|].
+            assert (Hin : In (nth i vs' dflt) (elements (Inode vs' cs'))).
+            { apply (B3 in_vals_elements); auto. apply nth_In. lia. }
+            rewrite Eel' in Hin. rewrite Eel. apply in_app_or in Hin as [Hin|Hin]; apply in_or_app; auto.
+            right. right. assumption. }
+          left. split; [reflexivity|]. exists (nth i vs dflt), l1, l2.
+          split; [reflexivity|]. split; [assumption|]. split; [assumption|]. split; [assumption|].
+          destruct Hpos as [[Hrk Hp]|[Hrk Hp]].
+          -- replace (cmpk rank e (nth i vs' dflt)) with Lt by (symmetry; apply (B3 cmpk_Lt); lia).
+             split; [|assumption]. apply (B7 valid_single). unfold n_vals. cbn [vals]. lia.
+          -- replace (cmpk rank e (nth i vs' dflt)) with Gt by (symmetry; apply (B3 cmpk_Gt); lia).
+             split; [|assumption]. apply (B7 valid_single). unfold n_vals. cbn [vals]. lia.
+        * destruct Hrv as [Ec0 Ec1].
+          pose proof (B7 PK_child h vs cs i HP ltac:(lia)) as W0.
+          pose proof (B7 PK_child h vs cs (S i) HP ltac:(lia)) as W1.
+          destruct (B7 merge_spec h vs cs i HP Hi' (can_remove_false h _ W0 Ec0) (can_remove_false h _ W1 Ec1))
+            as (m & Em & Wm & Nm & Eem).
+          assert (H2 : 2 <= length vs).
+          { destruct Hs as [Hs|[Hs1 Hs2]]; [lia|]. exfalso. assert (i = 0) by lia. subst i.
+            rewrite Ec0, Ec1 in Hs2. discriminate. }
+          rewrite Em. unfold child. cbn [children]. rewrite plug_cons by (rewrite length_aerase; lia).
+          assert (Enth : nth i (aerase (aset cs i m) (S i)) dnode = m).
+          { rewrite (B7 nth_aerase_lt) by lia. apply nth_aset_eq. lia. }
+          assert (Eel : elements (Inode (aerase vs i) (aerase (aset cs i m) (S i))) = elements (Inode vs cs)).
+          { rewrite (B7 elements_merge_parent) by lia. rewrite (B7 elements_split2 vs cs i) by lia.
+            rewrite Eem, <- app_assoc. reflexivity. }
+          pose proof (B7 PK_merge h vs cs i m HP Hi' Wm) as HP1.
+          assert (Hmin1 : min_vals L I (nth i (aerase (aset cs i m) (S i)) dnode) <
+                          n_vals (nth i (aerase (aset cs i m) (S i)) dnode)) by (rewrite Enth; assumption).
+          assert (Hi1 : i <= length (aerase vs i)) by (rewrite length_aerase; lia).
+          apply rd_post_lift; auto; try (rewrite length_aerase; lia).
+          -- intros y Hy Hr. rewrite Enth, Eem.
+             assert (y = nth i vs dflt).
+             { apply (B3 asc_NoDup_rank _ y (nth i vs dflt) Hasc); auto; try lia.
+               apply (B3 in_vals_elements); auto. apply nth_In. assumption. }
+             subst y. apply in_or_app. right. left. reflexivity.
+          -- rewrite <- Eel in Hasc.
+             destruct (child_pre h _ _ i HP1 Hi1 Hasc Hmin1) as (Hk1 & Ha1 & Hs1).
+             apply IH; assumption.
+      + destruct (Hff eq_refl) as [Hlt Hgt].
+        assert (Hloc : forall y, In y (elements (Inode vs cs)) -> rank y = rank e ->
+                                 In y (elements (nth i cs dnode))).
+        { intros y Hy Hr. rewrite (B3 elements_split vs cs i) in Hy by lia.
+          apply in_app_or in Hy as [Hy|Hy]; [|apply in_app_or in Hy as [Hy|Hy]; [assumption|]]; exfalso.
+          - apply (B3 sep_pre (cmpk rank e) vs cs i Hl Hi Hmono Hlt) in Hy. apply (proj1 (B3 cmpk_Lt _ _)) in Hy. lia.
+          - apply (B3 sep_post_gt (cmpk rank e) vs cs i Hl Hi Hmono Hgt) in Hy. apply (proj1 (B3 cmpk_Gt _ _)) in Hy. lia. }
+        destruct (can_remove_from L I (nth i cs dnode)) eqn:Ec.
+        * apply can_remove_true in Ec.
+          destruct (child_pre h _ _ i HP Hi Hasc Ec) as (Hk1 & Ha1 & Hs1).
+          apply rd_post_lift; auto; try lia.
+        * destruct (fatten_child_spec h vs cs i HP Hi Hs Ec)
+            as (vs1 & cs1 & i' & Ef & HP1 & Hi' & H1 & Hlen & Hmin & Eel & Hinc & _ & _).
+          rewrite Ef. unfold child. cbn [children]. rewrite plug_cons by lia.
+          rewrite <- Eel in Hasc.
+          destruct (child_pre h _ _ i' HP1 Hi' Hasc Hmin) as (Hk1 & Ha1 & Hs1).
+          apply rd_post_lift; auto.
+  Qed.
 End Remove.
